@@ -26,11 +26,16 @@
    Tie to the code: the Rust PriorityQueue is driven with 67k operation sequences (exhaustive up to length 5 over
    3 items x 2 priorities, plus long seeded ones with many ties) against [heap_run], and every replayed solver run
    (140k quick / millions thorough) must make exactly the picks [resolve_h] computes (field (heap ok)).
+   [run_exists_and_is_generated], [accepted_run_is_the_generated_run] (Proofs/SolverGen.v): the GENERATING model
+   [resolve_g] asks a typed provider (one answer function per callback, each may depend on the whole history) instead
+   of checking a recording; the trace it produces is a recording of that provider which [resolve_h] accepts with the
+   same result, and every recording of that provider which [resolve_h] accepts is that trace: for every provider
+   there is exactly one run, i.e. the model of resolve IS a total function provider -> (result, call trace).
    What remains a fact about the runtime: that the Rust code has no other hidden input (hash seeds, addresses,
    clocks); decided by re-execution in a second thread and a fresh process. *)
 From Coq Require Import List NArith Bool.
 From Coq Require Import ZArith Permutation.
-From PG Require Import Model.VS Model.Term Model.Heap Model.Solver Proofs.SolverTrace Proofs.SolverFuel Proofs.HeapProofs Proofs.SolverDet Proofs.SolverDetQueue Proofs.SolverDetInst Proofs.SolverDetExample.
+From PG Require Import Model.VS Model.Term Model.Heap Model.Solver Proofs.SolverTrace Proofs.SolverFuel Proofs.HeapProofs Proofs.SolverDet Proofs.SolverDetQueue Proofs.SolverDetInst Proofs.SolverDetExample Proofs.SolverGen.
 Import ListNotations.
 
 Section C07.
@@ -74,6 +79,28 @@ Section C07.
   Theorem heap_pick_is_max : forall fuel r v (tr : list (event (VS := VS) (Vr := Vr))) k p,
     fst (fst (fst (resolve_h O veqb fuel r v tr))) <> OPickNotMax k p.
   Proof. exact (resolve_h_pick_is_max O veqb). Qed.
+
+  (* existence: the generating model produces a recording of the provider that the checker accepts with the same
+     result (the four outcomes that are decided while looking at the next choose_version call are reported before
+     that call is made: [la] is then that one call) *)
+  Theorem run_exists_and_is_generated :
+    (forall s, vs_eqb O s s = true) -> (forall v, veqb v v = true) ->
+    forall (pg : tprovider (VS := VS) (Vr := Vr)) fuel r v res tr,
+      resolve_g O veqb pg fuel r v = (res, tr) ->
+      generated_by (to_provider pg) [] tr /\ snd res = length tr /\
+      exists la, generated_by (to_provider pg) [] (tr ++ la) /\ resolve_h O veqb fuel r v (tr ++ la) = res /\
+                 (la = [] \/ (stops_before_choose (fst (fst (fst res))) = true /\ exists p s a, la = [EvChoose p s a])).
+  Proof. exact (resolve_g_is_accepted_run O veqb). Qed.
+
+  (* uniqueness: every accepted recording of the provider is the generated run *)
+  Theorem accepted_run_is_the_generated_run :
+    (forall s, vs_eqb O s s = true) -> (forall v, veqb v v = true) ->
+    (forall a b, vs_eqb O a b = true -> a = b) -> (forall a b, veqb a b = true -> a = b) ->
+    forall (pg : tprovider (VS := VS) (Vr := Vr)) fuel r v res tr tr' o st log n,
+      resolve_g O veqb pg fuel r v = (res, tr) -> is_mismatch (fst (fst (fst res))) = false ->
+      generated_by (to_provider pg) [] tr' -> resolve_h O veqb fuel r v tr' = (o, st, log, n) -> is_mismatch o = false ->
+      (o, st, log, n) = res /\ firstn n tr' = tr.
+  Proof. exact (accepted_run_is_generated O veqb). Qed.
 End C07.
 
 Theorem resolve_deterministic_range :
@@ -108,12 +135,21 @@ Example determinism_nonvacuous :
   /\ generated_by tie_prov [] tie_tr_heap /\ generated_by tie_prov [] tie_tr_other.
 Proof. vm_compute. tauto. Qed.
 
+Definition tie_tprov : tprovider (VS := Instances.RZ.range) (Vr := Z) :=
+  {| p_cancel := fun _ => true; p_prio := fun _ _ _ => 0%Z; p_choose := fun _ _ _ => CSome 1%Z;
+     p_deps := fun _ p _ => match p with 0%N => DAvail [(1%N, Instances.RZ.full); (2%N, Instances.RZ.full)] | _ => DAvail [] end |}.
+Example generating_model_produces_the_heap_run :
+  snd (resolve_g zvs' Z.eqb tie_tprov 100 0%N 1%Z) = tie_tr_heap.
+Proof. vm_compute. reflexivity. Qed.
+
 Print Assumptions model_trace_function.
 Print Assumptions model_fuel_irrelevant.
 Print Assumptions model_fuel_monotone.
 Print Assumptions model_heap_erasure.
 Print Assumptions resolve_deterministic.
 Print Assumptions heap_pick_is_max.
+Print Assumptions run_exists_and_is_generated.
+Print Assumptions accepted_run_is_the_generated_run.
 Print Assumptions resolve_deterministic_range.
 Print Assumptions priority_queue_reachable_invariant.
 Print Assumptions priority_queue_pop_is_max.
